@@ -364,7 +364,7 @@ func checkC10(c *Ctx, r *Report) {
 	r3.onlyCallers("call addrsForDial", []string{"(*" + swarmP + ".Swarm).addrsForDial"}, c.FnsOfPkg(swarmP), "(*"+swarmP+".dialWorker).addNewRequest", "(*"+swarmP+".dialWorker).loop")
 
 	// ---- R4 ---------------------------------------------------------------
-	r4 := r.Rule("C10-R4", "E1", 12, "Block*/Unblock*: success only past ds==nil or a successful Put/Delete, and past the in-memory update under the write lock")
+	r4 := r.Rule("C10-R4", "E1", 18, "Block*/Unblock*: success only past ds==nil or a successful Put/Delete, and past the in-memory update under the write lock")
 	gT := cgP + ".BasicConnectionGater"
 	type op struct{ fn, mapF, dsOp string }
 	ops := []op{
@@ -384,7 +384,7 @@ func checkC10(c *Ctx, r *Report) {
 		r4.guard(f, "return nil", rets, "ds==nil || ds."+o.dsOp+"()==nil", anyEdge(dsNil, dsOK), nil)
 		upd := findInstrs(f, fieldWritePred(gT+"."+o.mapF))
 		for _, ret := range rets {
-			w, n := (&Cut{Fn: f, Target: isInstr(ret), Sep: inSet(upd)}).Run(c)
+			w, n := (&Cut{Fn: f, Target: isInstr(ret), EdgeCut: failCut(ret), Sep: inSet(upd)}).Run(c)
 			r4.Check(w == "" && len(upd) > 0, "(*"+gT+")."+o.fn+": success passes the in-memory update", instrPos(ret), n+1, "", "success returned although the rule was not applied in memory", w)
 		}
 		// when a datastore is configured the write is attempted (non-nil edge reaches the ds call before anything else)
@@ -396,6 +396,10 @@ func checkC10(c *Ctx, r *Report) {
 				}
 			}
 		}
+		// the in-memory update comes after the datastore has accepted the change: it is reached only past
+		// ds == nil or a successful Put / Delete (a failed write must leave the running gater as it was: a failed
+		// unblock that already dropped the rule un-enforces a block that is still persisted)
+		r4.guard(f, "in-memory update of "+o.mapF, upd, "ds==nil || ds."+o.dsOp+"()==nil", anyEdge(dsNil, dsOK), nil)
 		if len(nonNil) == 0 {
 			r4.Fail("(*"+gT+")."+o.fn+": ds != nil branch", f.Pos(), "not found", "")
 		} else {
@@ -486,8 +490,56 @@ func checkC10(c *Ctx, r *Report) {
 					}
 				}
 			}
+			if call.Parent() != lr && pfx == "?" {
+				// the query sits in a local helper that takes the prefix as a parameter: every call of the helper is a
+				// query for the prefix it passes
+				h := call.Parent()
+				var pIdx = -1
+				if u, ok := strip2(qv).(*ssa.UnOp); ok {
+					if al, ok := u.X.(*ssa.Alloc); ok {
+						for _, ref := range *al.Referrers() {
+							if fa, ok := ref.(*ssa.FieldAddr); ok {
+								if fld, _ := fieldAddrOfRaw(fa); fld != nil && fld.Name() == "Prefix" {
+									for _, r2 := range *fa.Referrers() {
+										if st, ok := r2.(*ssa.Store); ok {
+											v := st.Val
+											for i, hp := range h.Params {
+												if v == ssa.Value(hp) || isParamCellLoad(c, v, hp) {
+													pIdx = i
+												}
+											}
+										}
+									}
+								}
+							}
+						}
+					}
+				}
+				if pIdx >= 0 {
+					for _, site := range findInstrsIn(lr, func(in ssa.Instruction) bool {
+						cl, ok := in.(*ssa.Call)
+						if !ok {
+							return false
+						}
+						for _, t := range walkTargets(cl) {
+							if t == h {
+								return true
+							}
+						}
+						return false
+					}) {
+						p2 := "?"
+						if s, ok := constString(site.(*ssa.Call).Call.Args[pIdx]); ok {
+							p2 = s
+						}
+						qs = append(qs, qinfo{p2, site})
+					}
+					continue
+				}
+			}
 			qs = append(qs, qinfo{pfx, call.(ssa.Instruction)})
 		}
+		sort.Slice(qs, func(i, j int) bool { return instrPos(qs[i].in) < instrPos(qs[j].in) })
 		r5.Check(len(qs) == 3, "loadRules: three queries", lr.Pos(), len(qs), "", "the loader no longer queries all three rule kinds", "")
 		for i, q := range qs {
 			// map updates reachable from this query before the next query
@@ -653,25 +705,33 @@ func checkC10(c *Ctx, r *Report) {
 		if f == nil {
 			continue
 		}
-		for _, ret := range returnsOf(f) {
-			v := retVal(ret, 0)
-			if b, ok := constBool(v); ok {
-				if b && fnN == "InterceptSecured" {
-					// constant allow only for outbound
-					w, n := (&Cut{Fn: f, Target: isInstr(ret), EdgeCut: edgeIntBound(func(v ssa.Value) bool { return isParamVar(c, v, "dir") }, constIntObj(c, "core/network", "DirOutbound"), constIntObj(c, "core/network", "DirOutbound"), false)}).Run(c)
-					r7.Check(w == "", "(*"+gT+").InterceptSecured: constant allow only for outbound", instrPos(ret), n+1, "", "inbound connections are allowed without consulting blockedPeers", w)
-				} else if b {
-					r7.Fail("(*"+gT+")."+fnN+": constant allow", instrPos(ret), "blockedPeers is not consulted", "")
-				}
-				continue
-			}
-			base, neg := stripNot(v)
-			r7.Check(neg && lookupOK("blockedPeers")(base), "(*"+gT+")."+fnN+": returns !blockedPeers[p]", instrPos(ret), 1, "", "", describeVal(v))
-			if lk, ok := base.(*ssa.Extract); ok {
-				if l, ok := lk.Tuple.(*ssa.Lookup); ok {
-					r7.Check(isParamVar(c, strip2(l.Index), "p"), "(*"+gT+")."+fnN+": looks up the peer given", instrPos(ret), 1, "", "", "")
-				}
-			}
+		// the answer as a function of "p is in blockedPeers" (and, for InterceptSecured, of the direction), however it
+		// is written: `return !block`, an if with constant returns, a named result
+		outbound := constIntObj(c, "core/network", "DirOutbound")
+		atoms := []atomPred{
+			func(v ssa.Value) (bool, bool) { return lookupOK("blockedPeers")(v), true },
+			func(v ssa.Value) (bool, bool) {
+				x, k, isEq, ok := eqConstOf(v)
+				return ok && k == outbound && isParamVar(c, x, "dir"), isEq
+			},
 		}
+		tab, okT := boolReturnTable(f, atoms, 0)
+		// assignment bits: 0 = blocked, 1 = outbound
+		if fnN == "InterceptPeerDial" {
+			r7.Check(okT && tab[1] == 1 && tab[3] == 1 && tab[0] == 2 && tab[2] == 2, "(*"+gT+")."+fnN+": allows exactly the peers that are not in blockedPeers (decision table)", f.Pos(), 4, "",
+				"a blocked peer is dialled (or an unblocked one refused)", fmt.Sprint(tab))
+		} else {
+			r7.Check(okT && tab[1] == 1 && tab[0] == 2, "(*"+gT+")."+fnN+": inbound: allows exactly the peers that are not in blockedPeers (decision table)", f.Pos(), 2, "",
+				"inbound connections are allowed without consulting blockedPeers", fmt.Sprint(tab))
+			r7.Check(okT && tab[2] == 2 && tab[3]&2 != 0, "(*"+gT+")."+fnN+": outbound connections are not refused for a peer that is not blocked", f.Pos(), 2, "", "", fmt.Sprint(tab))
+		}
+		n := 0
+		allInstrs(f, func(in ssa.Instruction) {
+			if l, ok := in.(*ssa.Lookup); ok && isLoadOfField(gT+".blockedPeers")(strip2(l.X)) {
+				n++
+				r7.Check(isParamVar(c, strip2(l.Index), "p"), "(*"+gT+")."+fnN+": looks up the peer given", instrPos(in), 1, "", "", "")
+			}
+		})
+		r7.Check(n >= 1, "(*"+gT+")."+fnN+": consults blockedPeers", f.Pos(), n, "", "blockedPeers is not consulted", "")
 	}
 }
